@@ -14,8 +14,33 @@ def wire_out(a):
     return celx.enc(celx.strip_py(a))
 
 
+def _exposes_timestamp_text(prog):
+    """does the program turn a value into text (string(), and from there bytes / size ...)?  The zone a timestamp literal is written
+    in then shows in the result, and the specifications fix that text for UTC only -- except under the round-trip law
+    timestamp(string(t)) == t, which is about values again"""
+    if isinstance(prog, dict):
+        if prog.get("k") == "bin" and prog.get("op") == "==":
+            return False
+        if prog.get("k") in ("call", "mcall") and prog.get("f") == "string":
+            return True
+        return any(_exposes_timestamp_text(v) for v in prog.values())
+    if isinstance(prog, list):
+        return any(_exposes_timestamp_text(v) for v in prog)
+    return False
+
+
+def render(prog):
+    if _exposes_timestamp_text(prog):
+        saved, celx.TS_OFFSETS = celx.TS_OFFSETS, [0]
+        try:
+            return celx.render_ast(prog)
+        finally:
+            celx.TS_OFFSETS = saved
+    return celx.render_ast(prog)
+
+
 def observe(prog, env_pairs=(), runners=("I", "C")):
-    text = celx.render_ast(prog)
+    text = render(prog)
     bind = {n: celx.to_cel(celx.dec(v)) for n, v in env_pairs}
     out = {}
     for r in runners:
